@@ -172,6 +172,17 @@ def main(tier):
         for i in bad:
             x = lines[i - 1]
             run.violation(facts_of(x), {"line": x})
+        # ---- an independent implementation in the loop: MIT's GSS-API tokens verified by gokrb5, gokrb5's by MIT (AES etypes: RFC 4121 formats)
+        import mitcross
+        mg, mbad = mitcross.mit_gss_interop(wd, run.seed)
+        run.extra["interop_with_mit_gssapi"] = mg
+        for x in mbad:
+            if x["mitStage"] != 6:
+                raise vlib.Inconclusive("MIT's GSS-API did not establish a context against the simulated KDC (stage %s, rc %s)" % (x["mitStage"], x["mitRC"]))
+            run.violation({"interop": "mit-gssapi", "et": x["et"], "msglen": x["msglen"]}, {"line": x})
+        if mg.get("available"):
+            run.cov["evaluations"] += 8 * mg["contexts"]
+            run.cov["traces_validated_against_impl"] += mg["contexts"] - len(mbad)
         run.assumptions += [
             "trusted base as for C05 (KrbPrims.java: AES, DES3, HMAC, MD5 of the JDK)",
             "RRC: RFC 4121 does not integrity-protect the rotation count and gokrb5 ignores it (never rotates, never un-rotates); a flip of an RRC "
